@@ -515,3 +515,57 @@ package ast
 //@   props C10
 //@   pure
 //@   ensures result != nil
+
+// ---------------------------------------------------------------------------
+// In-memory cursors (C14, C10)
+// ---------------------------------------------------------------------------
+
+// the empty cursor: no elements, always exhausted
+//@ view curLen[emptyCursor] = 0
+//@ view curPos[emptyCursor] = 0
+//@ view curDesc[emptyCursor] = false
+//@ implcheck C14 ast.SeekableSetCursor emptyCursor
+//@ func NewEmptyCursor
+//@   props C14
+//@   pure
+//@   ensures[empty] result != nil && istype(result, emptyCursor)
+//@ func OpenEmptyCursor
+//@   props C14
+//@   pure
+//@   ensures[empty] result != nil && istype(result, emptyCursor)
+
+// filteredCursor: the elements of the wrapped cursor that satisfy the filter, in the same order.
+// filt(f, s): the filter function f accepts s.
+//@ spec filt(f Int, s Str) Bool
+//@ funcfield filteredCursor.filter(val)
+//@   pure
+//@   ensures result == filt(self.filter, str(val))
+//@ funcparam NewFilteredCursor.filter(val)
+//@   pure
+//@   ensures result == filt(self, str(val))
+//@ typeinv filteredCursor: self.wrapped != nil && 0 <= curPos[self.wrapped] && curPos[self.wrapped] <= curLen[self.wrapped] && (curPos[self.wrapped] < curLen[self.wrapped] ==> filt(self.filter, curSeq[self.wrapped][curPos[self.wrapped]]))
+//@ func (*filteredCursor).IsValid
+//@   props C14 C10
+//@   pure
+//@   ensures[valid-iff] result == (curPos[cursor.wrapped] < curLen[cursor.wrapped])
+//@ func (*filteredCursor).Current
+//@   props C14 C10
+//@   requires[valid] curPos[cursor.wrapped] < curLen[cursor.wrapped]
+//@   pure
+//@   ensures[element] result != nil && str(result) == curSeq[cursor.wrapped][curPos[cursor.wrapped]] && filt(cursor.filter, str(result))
+//@ func (*filteredCursor).Next
+//@   props C14 C10
+//@   modifies curPos[cursor.wrapped]
+//@   ensures[advances] old(curPos[cursor.wrapped]) < curLen[cursor.wrapped] ==> old(curPos[cursor.wrapped]) < curPos[cursor.wrapped]
+//@   ensures[skips-only-rejected] forall(j, old(curPos[cursor.wrapped]) < j && j < curPos[cursor.wrapped] ==> !filt(cursor.filter, sel(curSeq[cursor.wrapped], j)))
+//@   ensures[exhausted-stays] old(curPos[cursor.wrapped]) >= curLen[cursor.wrapped] ==> curPos[cursor.wrapped] == old(curPos[cursor.wrapped])
+//@   invariant 1: old(curPos[cursor.wrapped]) <= curPos[cursor.wrapped] && curPos[cursor.wrapped] <= curLen[cursor.wrapped] && cursor.wrapped != nil
+//@   invariant 1: forall(j, old(curPos[cursor.wrapped]) < j && j <= curPos[cursor.wrapped] && j < curLen[cursor.wrapped] && curPos[cursor.wrapped] > old(curPos[cursor.wrapped]) ==> !filt(cursor.filter, sel(curSeq[cursor.wrapped], j)))
+//@ func NewFilteredCursor
+//@   props C14 C10
+//@   requires cursor == nil || (0 <= curPos[cursor] && curPos[cursor] <= curLen[cursor])
+//@   modifies curPos[cursor]
+//@   ensures[usable] result != nil
+//@   ensures[wraps] istype(result, *filteredCursor) ==> as(result, *filteredCursor).wrapped == cursor && as(result, *filteredCursor).filter == filter
+//@   ensures[skips-only-rejected] cursor != nil ==> forall(j, old(curPos[cursor]) <= j && j < curPos[cursor] ==> !filt(filter, sel(curSeq[cursor], j)))
+//@   ensures[empty-when-exhausted] cursor == nil || old(curPos[cursor]) >= curLen[cursor] ==> istype(result, emptyCursor)
